@@ -218,7 +218,159 @@ def family(run):
             yield ("seq", p, fi, (len(repr(p)) + fi) % 2 == 0)
 
 
+# ---------------------------------------------------------------------------
+# derived resets (ctx.or_reset / ctx.and_reset) and clock/reset taken from elements of one vector
+# ---------------------------------------------------------------------------
+DERIVED_SRC = """from cohdl import std, Entity, Port, Bit, BitVector, Unsigned, Signal
+import cohdl
+
+class T(Entity):
+    ctrl = Port.input(BitVector[3])
+    clk = Port.input(Bit)
+    rst = Port.input(Bit)
+    cond = Port.input(Bit)
+    q = Port.output(Unsigned[2], default=0)
+    def architecture(self):
+        base = std.SequentialContext({clk}{parent})
+        ctx = {derive}
+        @ctx
+        def proc():
+            self.q <<= self.q + 1
+"""
+
+
+def derived_designs():
+    """(name, source, spec) ; spec = dict(parent=None|(is_async, active_low), op=None|'or'|'and', al, asy, vec)"""
+    out = []
+    parents = [None] + [(a, l) for a in (False, True) for l in (False, True)]
+    for vec in (False, True):
+        clk = "std.Clock(self.ctrl[0])" if vec else "std.Clock(self.clk)"
+        rsig = "self.ctrl[2]" if vec else "self.rst"
+        for par in parents:
+            ptxt = "" if par is None else f", std.Reset({rsig}, is_async={par[0]}, active_low={par[1]})"
+            ops = [None] if vec else [None, "or", "and"]
+            for op in ops:
+                if op is None:
+                    if par is None:
+                        continue
+                    out.append((f"derived/{'vec' if vec else 'sep'}/parent={par}/plain", DERIVED_SRC.format(clk=clk, parent=ptxt, derive="base"),
+                                dict(parent=par, op=None, al=False, asy=None, vec=vec)))
+                    continue
+                for al in (False, True):
+                    for asy in (None, False, True):
+                        kw = f"self.cond, active_low={al}" + ("" if asy is None else f", is_async={asy}")
+                        out.append((f"derived/sep/parent={par}/{op}_reset/active_low={al}/is_async={asy}",
+                                    DERIVED_SRC.format(clk=clk, parent=ptxt, derive=f"base.{op}_reset({kw})"),
+                                    dict(parent=par, op=op, al=al, asy=asy, vec=vec)))
+    return out
+
+
+def derived_expect(spec, rst, cond):
+    """-> (reset active?, asynchronous?) of the process for the given input levels"""
+    par = spec["parent"]
+    p_act = None if par is None else (rst == (0 if par[1] else 1))
+    if spec["op"] is None:
+        return p_act, par[0]
+    c_act = cond == (0 if spec["al"] else 1)
+    if par is None:
+        act = c_act
+        asy = bool(spec["asy"])
+    else:
+        act = (p_act or c_act) if spec["op"] == "or" else (p_act and c_act)
+        asy = par[0] if spec["asy"] is None else spec["asy"]
+    return act, asy
+
+
+def work_derived(idx):
+    name, src, spec = derived_designs()[idx]
+    res, _ = compile_source(src)
+    if not res.ok:
+        return {"name": name, "status": "rejected", "error": res.error}
+    try:
+        d = compile_design(res.vhdl)
+    except VhdlSyntaxError as e:
+        return {"name": name, "status": "violation", "what": f"emitted VHDL does not parse: {e}", "src": src}
+    bad = [f for f in d.findings if f.rule == "sensitivity"]
+    if bad:
+        return {"name": name, "status": "violation", "src": src,
+                "what": f"process is not sensitive to its asynchronous reset (reset cannot act at any instant): {bad[0].msg}"}
+    if d.findings:
+        return {"name": name, "status": "violation", "what": f"emitted VHDL is not legal: {d.findings[0]!r}", "src": src}
+    vec = spec["vec"]
+
+    def drive(sim, clk, rst, cond):
+        if vec:
+            sim.set_many({"ctrl": clk | (rst << 2), "cond": cond, "clk": 0, "rst": 0})
+        else:
+            sim.set_many({"clk": clk, "rst": rst, "cond": cond, "ctrl": 0})
+        sim.settle()
+
+    # exhaustive product exploration: state = (simulator snapshot, reference q, rst, cond); events: toggle ONE of the inputs
+    # between edges ('R' / 'K'; single-input changes, so that no glitch of the combined reset is provoked by the harness) or
+    # apply a rising clock edge ('C')
+    inactive = [(r, c) for r in (0, 1) for c in (0, 1) if not derived_expect(spec, r, c)[0]]
+    r0, c0 = inactive[0] if inactive else (0, 0)
+    sim = d.sim(init=dict(clk=0, rst=0 if vec else r0, cond=c0, ctrl=(r0 << 2) if vec else 0))
+    drive(sim, 0, r0, c0)
+    q0 = sim.get("q")
+    if q0 != 0:
+        return {"name": name, "status": "violation", "src": src, "what": f"power-up value of q is {q0}, expected the default 0"}
+    start = (sim.snapshot(), 0, r0, c0)
+    seen = {start}
+    frontier = [(start, [])]
+    transitions = 0
+    while frontier:
+        (snap, qref, rst0, cond0), hist = frontier.pop()
+        for ev in ("R", "K", "C"):
+            sim.restore(snap)
+            q, rst, cond = qref, rst0, cond0
+            if ev == "R":
+                rst ^= 1
+            elif ev == "K":
+                cond ^= 1
+            act, asy = derived_expect(spec, rst, cond)
+            drive(sim, 0, rst, cond)
+            if act and asy:
+                q = 0
+            if ev == "C":
+                drive(sim, 1, rst, cond)
+                q = 0 if act else (q + 1) & 3
+                drive(sim, 0, rst, cond)
+            got = sim.get("q")
+            transitions += 1
+            if got != q:
+                return {"name": name, "status": "violation", "src": src, "states": len(seen), "transitions": transitions,
+                        "what": f"after {hist + [ev]} (rst={rst}, cond={cond}): q={got}, expected {q} (reset active={act}, async={asy})"}
+            st = (sim.snapshot(), q, rst, cond)
+            if st not in seen:
+                seen.add(st)
+                frontier.append((st, hist + [ev]))
+    return {"name": name, "status": "ok", "states": len(seen), "transitions": transitions}
+
+
+def derived_family(run: Run):
+    n = len(derived_designs())
+    run.count("derived_designs", n)
+    for kind, r in pmap(work_derived, list(range(n))):
+        if kind != "ok":
+            run.tool_error(f"derived worker failed: {r[-500:]}")
+            continue
+        run.count("derived_" + r["status"])
+        if r["status"] == "ok":
+            run.count("states", r["states"])
+            run.count("transitions", r["transitions"])
+        elif r["status"] == "violation":
+            run.violation(r["name"], f"{r['name']}: {r['what'][:300]}", {"kind": "derived", "name": r["name"], "cohdl_source": r.get("src")})
+    if run.counters.get("derived_ok", 0) * 2 < n:
+        run.tool_error(f"vacuous: only {run.counters.get('derived_ok', 0)} of {n} derived-reset designs accepted and clean")
+
+
 def main(run: Run):
+    if not run.only or "derived" in run.only:
+        derived_family(run)
+        if run.only:
+            run.coverage_extra.update(exhaustive=True, evaluations=run.counters.get("transitions", 0), distinct_nontrivial=run.counters.get("derived_ok", 0))
+            return
     tasks = list(family(run))
     run.count("designs_generated", len(tasks))
     sample_every = max(1, len(tasks) // 5)
@@ -272,6 +424,11 @@ def flavour_name(fi):
 
 
 def replay(run: Run, data):
+    if data.get("kind") == "derived":
+        idx = [k for k, d_ in enumerate(derived_designs()) if d_[0] == data["name"]][0]
+        r = work_derived(idx)
+        print(r.get("status"), r.get("what"))
+        return r["status"] != "violation"
     msg = replay_one(data["kind"], totuple(data["abstract_program"]), FLAVOURS[data["flavour"]], data["on_reset"], data["events"])
     if msg is not None:
         print("reproduced:", msg)
